@@ -284,6 +284,9 @@ func derefsIn(p *Program, f *ssa.Function) []derefFinding {
 				if nilTestedBefore(f, x, r) {
 					continue
 				}
+				if keyFromSameMap(x) {
+					continue
+				}
 				mt := x.X.Type().Underlying().(*types.Map)
 				out = append(out, derefFinding{f, r, "map-miss",
 					fmt.Sprintf("result of map look-up %s (element %s) is dereferenced (%s) without a nil/ok test", exprKeyShort(x), types.TypeString(mt.Elem(), shortQual), deref)})
@@ -548,4 +551,92 @@ func runDeref(c *Check, rule string, entries []*ssa.Function, gr *guardResult, o
 	c.Counts[rule+"_pointer_map_lookups"] = nLook
 	c.Counts[rule+"_const_index_on_reference_paths"] = nIdx
 	c.Okf(rule, "scan", "-", "scanned %d reachable repository functions: %d un-tested pointer-valued map look-ups and %d constant indexings of reference paths/split results examined", len(fns), nLook, nIdx)
+}
+
+// keyFromSameMap: the look-up key is an element of the map's own key list —
+// `for _, k := range sortedKeys(m) { v := m[k] … }` or a key slice filled by
+// ranging over the same map — so the look-up cannot miss.
+func keyFromSameMap(lk *ssa.Lookup) bool {
+	mkey := exprKey(lk.X, 0)
+	// the key: a load of an element of some slice
+	var slice ssa.Value
+	switch k := unspill(lk.Index).(type) {
+	case *ssa.UnOp:
+		if ia, ok := k.X.(*ssa.IndexAddr); ok {
+			slice = ia.X
+		}
+	case *ssa.Index:
+		slice = k.X
+	}
+	if slice == nil {
+		return false
+	}
+	seen := map[ssa.Value]bool{}
+	var ok func(v ssa.Value, d int) bool
+	ok = func(v ssa.Value, d int) bool {
+		v = unspill(v)
+		if v == nil || seen[v] || d > 6 {
+			return false
+		}
+		seen[v] = true
+		switch x := v.(type) {
+		case *ssa.Call:
+			if b, isB := x.Call.Value.(*ssa.Builtin); isB && b.Name() == "append" {
+				// keys = append(keys, k) with k the key of a range over the same map
+				if len(x.Call.Args) == 2 {
+					if sl, isSl := x.Call.Args[1].(*ssa.Slice); isSl {
+						if al, isAl := sl.X.(*ssa.Alloc); isAl {
+							for _, r := range *al.Referrers() {
+								if ia, isIA := r.(*ssa.IndexAddr); isIA {
+									for _, r2 := range *ia.Referrers() {
+										if st, isSt := r2.(*ssa.Store); isSt && rangeKeyOf(st.Val, mkey) {
+											return true
+										}
+									}
+								}
+							}
+						}
+					}
+				}
+				return false
+			}
+			// a key-listing helper applied to the same map
+			sc := x.Call.StaticCallee()
+			if sc == nil || !strings.Contains(strings.ToLower(sc.Name()), "keys") {
+				return false
+			}
+			for _, a := range x.Call.Args {
+				if exprKey(a, 0) == mkey {
+					return true
+				}
+				if mi, isMI := a.(*ssa.MakeInterface); isMI && exprKey(mi.X, 0) == mkey {
+					return true
+				}
+			}
+		case *ssa.Phi:
+			for _, e := range x.Edges {
+				if ok(e, d+1) {
+					return true
+				}
+			}
+		case *ssa.Slice:
+			return ok(x.X, d+1)
+		}
+		return false
+	}
+	return ok(slice, 0)
+}
+
+// rangeKeyOf: v is the key extracted from a range over the map with access path mkey.
+func rangeKeyOf(v ssa.Value, mkey string) bool {
+	ex, ok := v.(*ssa.Extract)
+	if !ok || ex.Index != 1 {
+		return false
+	}
+	nx, ok := ex.Tuple.(*ssa.Next)
+	if !ok {
+		return false
+	}
+	rg, ok := nx.Iter.(*ssa.Range)
+	return ok && exprKey(rg.X, 0) == mkey
 }
